@@ -35,6 +35,8 @@ type Module struct {
 	Roots []*packages.Package
 	// AllByPath contains every package in the import closure.
 	AllByPath map[string]*packages.Package
+	// Folded describes the helper functions folded back into their users before analysis (see fold.go).
+	Folded []string
 
 	ssaOnce sync.Once
 	prog    *ssa.Program
@@ -126,6 +128,10 @@ func LoadModule(name, dir string, patterns []string, skip func(rel string) bool)
 	}
 	if len(m.Roots) == 0 {
 		return nil, &LoadError{fmt.Sprintf("load %s: zero analysed packages", dir)}
+	}
+	if name == "v2" || name == "root" {
+		m.Folded = FoldNewHelpers(m)
+		DebugPrintFunc(m)
 	}
 	return m, nil
 }
